@@ -21,8 +21,8 @@ RULE = (
     "input that is not a plain decimal; distinct by (kind, word, short?, default kind) / (kind, text)."
 )
 BOUND = {
-    "quick": "2^13 option words x 2 x 3; 2^11 argument words x 3; names of length <= 4 over {a,Z,1,-,_}; 90 boundary texts + 4000 random numbers",
-    "thorough": "same flag spaces; names of length <= 5 over {a,Z,1,-,_,e-acute}; 90 boundary texts + 200000 random numbers",
+    "quick": "2^13 option words x 2 x 3; 2^11 argument words x 3; names of length <= 4 over {a,Z,1,-,_} + 210 names with one odd character (newline, blank, NUL, case-folding and foreign letters / digits); 90 boundary texts + 4000 random numbers",
+    "thorough": "same flag spaces; names of length <= 5 over {a,Z,1,-,_,e-acute} + 210 names with one odd character; 90 boundary texts + 200000 random numbers",
 }
 ASSUMPTIONS = [
     "REQUIRED_VALUE|OPTIONAL_VALUE together is not listed as a contradiction by the statement and is accepted by the oracle",
@@ -446,6 +446,15 @@ def run(sh, spec):
                 s = "".join(t)
                 if first is None or s[:1] == first:
                     texts.append(s)
+        if not first:
+            # characters that pattern shortcuts let through: letters that case-fold to ASCII (Kelvin sign, long s, dotted /
+            # dotless i), other scripts' letters and digits, and control characters before / after a well-formed name
+            odd = ["\n", "\r", " ", "\t", "\x00", "\u212a", "\u017f", "\u0130", "\u0131", "\uff41", "\u00aa", "\u0663", "\u00b2", "\u03b1", "\u2010"]
+            for base in ("a", "ab", "opt-x", "Z9"):
+                for o in odd:
+                    texts += [base + o, o + base, base[:1] + o + base[1:]]
+            texts += odd + [o + o for o in odd]
+            sh.count("odd_character_names", len(odd) * 14)
         cls = (Option, Argument, CommandOption)
         for s in texts:
             for kind in ("long", "cmdopt-long"):
